@@ -26,6 +26,43 @@ theorem tie_checkedTimeout (route confMs : Int) :
   unfold Extracted.C04.checkedTimeout GoZero.C04.checkedTimeout
   by_cases h : route > 0 <;> simp [h]
 
+/-! ### which duration reaches `TimeoutHandler` for a route: rest/server.go options, rest/engine.go wiring -/
+
+/-- `WithTimeout(t)` stores `t`; `WithSSE()` resets the timeout to 0 (model: `RouteOpt`, `groupTimeout`) -/
+theorem tie_routeOptions :
+    withTimeoutOpt = ["r.timeout = timeout"] ∧ withSSEOpt = ["r.sse = true", "r.timeout = 0"] := by decide
+
+/-- `AddRoutes`: the options are applied in order on a zero `featuredRoutes`, which is then handed to the engine
+(model: `groupTimeout` as a left fold from 0, `Eng.addRoutes`) -/
+theorem tie_serverAddRoutes :
+    serverAddRoutes = ["r := featuredRoutes{ routes: rs, }", "range opts {", "opt(&r)", "}", "s.ngin.addRoutes(r)"] := by decide
+
+/-- `addRoutes`: append the group; `ng.timeout` becomes the maximum (model: `Eng.addRoutes`) -/
+theorem tie_engAddRoutes :
+    engAddRoutes = ["if r.sse {", "r.routes = buildSSERoutes(r.routes)", "}", "ng.routes = append(ng.routes, r)",
+      "if r.timeout > ng.timeout {", "ng.timeout = r.timeout", "}"] := by decide
+
+/-- `newEngine`: `ng.timeout` starts as the global timeout in ms (model: `Eng.new`) -/
+theorem tie_engNew :
+    engNewTimeout = ["svr := &engine{ conf: c, timeout: time.Duration(c.Timeout) * time.Millisecond, }"] := by decide
+
+/-- the middleware is appended only under `Middlewares.Timeout`, with `checkedTimeout` of the *group's* timeout
+(model: `Eng.bound`, mode `on` / `off`) -/
+theorem tie_engTimeoutWiring :
+    engTimeoutWiring =
+      ["if ng.conf.Middlewares.Timeout { chn = chn.Append(handler.TimeoutHandler(ng.checkedTimeout(fr.timeout)))"] := by decide
+
+/-- `bindRoute`: a user chain replaces the native middlewares altogether (model: mode `chain`); every route of a group is
+bound with the group's `fr`; every group of `ng.routes` is bound -/
+theorem tie_engBind :
+    engBindRouteChain = ["chn := ng.chain",
+      "if chn == nil { chn = ng.buildChainWithNativeMiddlewares(fr, route, metrics)",
+      "chn = ng.appendAuthHandler(fr, chn, verifier)",
+      "range ng.middlewares { chn = chn.Append(convertMiddleware(middleware))",
+      "handle := chn.ThenFunc(route.Handler)"] ∧
+    engBindFeatured = ["range fr.routes { err := ng.bindRoute(fr, router, metrics, route, verifier)"] ∧
+    engBindRoutes = ["range ng.routes { err := ng.bindFeaturedRoutes(router, fr, metrics)"] := by decide
+
 /-! ### statement skeletons and context/result flow -/
 
 /-- `TimeoutHandler(duration)`: no wrapper at all when `duration <= 0` (model: `restWraps`) -/
